@@ -4,7 +4,7 @@
   actors/miner/src/{partition_state,expiration_queue,bitfield_queue}.rs, the Level-1 specification
   `BA.Sector.Spec`, and the model `BA.Sector.Alloc` of `State::allocate_sector_numbers`.
 -/
-import BA.Lemmas.Sector.Abs
+import BA.Lemmas.Sector.Refine
 import BA.Model.Sector.Alloc
 
 namespace BA.Sector
@@ -49,6 +49,24 @@ theorem status_preimages (env : Env) (ops : List Op) (hw : ∀ op ∈ ops, OpWF 
   have h : SetInv p := setInv_run setInv_new hw
   exact ⟨by rw [mem_live_abs, mem_diff], mem_faulty_abs h n, mem_recovering_abs h n,
     mem_unproven_abs h n, mem_active_abs n⟩
+
+/-- **status_refines_level1_partial.** Level 2 refines Level 1 on the statuses: every successful
+    call of add_sectors, record_faults, declare_faults_recovered, recover_faults, activate_unproven,
+    record_missed_post, record_skipped_faults or pop_early_terminations on a partition satisfying
+    the set invariant corresponds to the Level-1 operation of the protocol on the abstracted state
+    (which succeeds too), and afterwards every sector number has exactly the status the Level-1
+    operation assigns: new sectors unproven/active; declared or skipped faults turn unproven, active
+    and recovering sectors faulty and leave faulty and terminated ones alone; a recovery declaration
+    turns faulty sectors recovering; a proven recovery turns recovering sectors active; the first
+    covering PoSt turns unproven sectors active; a missed PoSt turns every live sector faulty.
+    PARTIAL: terminate_sectors, pop_expired_sectors, reschedule_expirations, replace_sectors are not
+    covered (which sectors they affect is decided by the expiration queue). -/
+theorem status_refines_level1_partial (env : Env) (p p' : Partition) (op : Op) (r : Ret)
+    (hw : TableWF env.tbl) (hs : SetInv p) (hop : OpWF op) (ha : TierA op)
+    (h : stepE env p op = .ok (p', r)) :
+    ∃ s', specStep p.abs op = some (.ok s') ∧
+      ∀ n, Spec.statusOf p'.abs n = Spec.statusOf s' n :=
+  refines_stepE hw hs hop ha h
 
 /-! ### memo = recomputed value (Level 2 refines Level 1 on the summaries) -/
 
